@@ -1140,6 +1140,7 @@ U32 ZSTD_window_correctOverflow(ZSTD_window_t* window, U32 cycleLog,
     assert(window->dictLimit <= newCurrent);
 
     ++window->nbOverflowCorrections;
+    ZSTD_VERIF_PROBE(ZSTD_VERIF_PROBE_OVERFLOW_CORRECTION);
 
     DEBUGLOG(4, "Correction of 0x%x bytes to lowLimit=0x%x", correction,
              window->lowLimit);
@@ -1204,6 +1205,7 @@ ZSTD_window_enforceMaxDist(ZSTD_window_t* window,
         }
         /* On reaching window size, dictionaries are invalidated */
         if (loadedDictEndPtr) *loadedDictEndPtr = 0;
+        ZSTD_VERIF_PROBE(ZSTD_VERIF_PROBE_DICT_INVALIDATED);
         if (dictMatchStatePtr) *dictMatchStatePtr = NULL;
     }
 }
@@ -1241,6 +1243,7 @@ ZSTD_checkDictValidity(const ZSTD_window_t* window,
              */
             DEBUGLOG(6, "invalidating dictionary for current block (distance > windowSize)");
             *loadedDictEndPtr = 0;
+            ZSTD_VERIF_PROBE(ZSTD_VERIF_PROBE_DICT_INVALIDATED);
             *dictMatchStatePtr = NULL;
         } else {
             if (*loadedDictEndPtr != 0) {
